@@ -28,6 +28,7 @@ type Op struct {
 	Race  []RaceOp `json:"race,omitempty"`
 	Post  []string `json:"post,omitempty"`
 	Iter  *IterOp  `json:"iter,omitempty"`
+	OptN  []Opt    `json:"optN,omitempty"` // reopen options of the lock-step followers (C14)
 }
 
 // RaceOp is a write executed from inside Merge's scan loop, at its At-th
@@ -115,37 +116,40 @@ func ErrName(err error) string {
 
 // Features are measured (never assumed) properties of an executed history.
 type Features struct {
-	Muts           int
-	Puts, Dels     int
-	Rewrites       int // key written twice or deleted after being written
-	Rotations      int
-	BigValue       int // value longer than one block
-	NearBoundary   int // a write left the file end within 8 bytes of a block boundary
-	TailPad        int // a write started in the last 7 bytes of a block
-	OverLimit      int // record larger than DataFileSize
-	Batches        int
-	BatchPlainSame int // key written both by a batch and plainly
-	Merges         int
-	MergeOK        int
-	MergeAfterDel  int
-	Reopens        int
-	ReopenAfter    map[string]int
-	EmptyKeyOps    int
-	LongKey        int
-	Enumerations   int
-	Steps          int
-	BGetRotated    int // Batch.Get served from a rotated (older) file
-	BGetActive     int // Batch.Get served from the database, active file
-	BGetStaged     int
-	BatchRepeat    int // batch touching one key more than once
-	BPutAfterDel   int // Batch.Put of a key the same batch deleted before
-	MidBatchFlush  int // the batch caused a rotation before its Commit returned
-	PostCommit     int
-	EmptyBatch     int
-	IterSessions   int
-	IterNonTrivial int // sessions over keys in >= 2 shards with a Seek or a Rewind after Next
-	IterLabels     map[string]int
-	dirtySince     map[string]bool // events since last reopen
+	Muts              int
+	Puts, Dels        int
+	Rewrites          int // key written twice or deleted after being written
+	Rotations         int
+	BigValue          int // value longer than one block
+	NearBoundary      int // a write left the file end within 8 bytes of a block boundary
+	TailPad           int // a write started in the last 7 bytes of a block
+	OverLimit         int // record larger than DataFileSize
+	Batches           int
+	BatchPlainSame    int // key written both by a batch and plainly
+	Merges            int
+	MergeOK           int
+	MergeAfterDel     int
+	Reopens           int
+	ReopenAfter       map[string]int
+	EmptyKeyOps       int
+	LongKey           int
+	Enumerations      int
+	Steps             int
+	BGetRotated       int // Batch.Get served from a rotated (older) file
+	BGetActive        int // Batch.Get served from the database, active file
+	BGetStaged        int
+	BatchRepeat       int // batch touching one key more than once
+	BPutAfterDel      int // Batch.Put of a key the same batch deleted before
+	MidBatchFlush     int // the batch caused a rotation before its Commit returned
+	PostCommit        int
+	EmptyBatch        int
+	IterSessions      int
+	Backups           int
+	BackupWithHint    int
+	WritesAfterBackup int
+	IterNonTrivial    int // sessions over keys in >= 2 shards with a Seek or a Rewind after Next
+	IterLabels        map[string]int
+	dirtySince        map[string]bool // events since last reopen
 }
 
 // Runner executes a history against the real engine and a reference map.
@@ -388,6 +392,8 @@ func (r *Runner) ActiveOffset() int64 {
 func (r *Runner) Step(op Op) (fail *Fail) {
 	r.Ops = append(r.Ops, op)
 	r.F.Steps++
+	// a SIGBUS/SIGSEGV from a stale mapping becomes a recoverable panic of this goroutine
+	debug.SetPanicOnFault(true)
 	defer func() {
 		if p := recover(); p != nil {
 			fail = failf("panic", "op %s panicked: %v\n%s", op.K, p, trimStack(debug.Stack()))
@@ -519,6 +525,9 @@ func (r *Runner) exec(op *Op) (touched [][]byte, global bool, fail *Fail) {
 		}
 		r.modelPut(op.Key, val, false)
 		r.F.Muts++
+		if r.F.Backups > 0 {
+			r.F.WritesAfterBackup++
+		}
 		r.measureWrite(before, op.VLen, len(op.Key))
 		return [][]byte{op.Key}, false, nil
 
@@ -596,6 +605,9 @@ func (r *Runner) exec(op *Op) (touched [][]byte, global bool, fail *Fail) {
 
 	case "iter":
 		return nil, false, r.execIter(op)
+
+	case "backup":
+		return nil, true, r.execBackup(op)
 	}
 	return nil, false, failf("harness-bad-op", "unknown op kind %q", op.K)
 }
@@ -1051,6 +1063,74 @@ func (r *Runner) execReopen(op *Op) *Fail {
 	return nil
 }
 
+// execBackup takes a backup into a fresh directory, opens the copy while the
+// source is still open and compares it with the model at backup time.
+func (r *Runner) execBackup(op *Op) *Fail {
+	r.F.Backups++
+	dst := filepath.Join(r.Base, fmt.Sprintf("backup-%d", r.F.Backups))
+	if err := r.DB.Backup(dst); err != nil {
+		return failf("backup-error", "Backup() = %v", err)
+	}
+	r.tr("backup ok")
+	if _, err := os.Stat(filepath.Join(dst, ".lock")); err == nil {
+		return failf("backup-carries-lock", "the backup directory contains the source's lock file")
+	}
+	ents, _ := os.ReadDir(dst)
+	for _, e := range ents {
+		if strings.HasSuffix(e.Name(), ".hint") {
+			r.F.BackupWithHint++
+		}
+		if fi, err := e.Info(); err == nil && fi.Size() > 64<<20 {
+			r.Stats.Label("backup-holds-file>64MiB")
+		}
+	}
+	opt := r.Opt
+	if op.Opt != nil {
+		opt = *op.Opt
+	}
+	copyDB, err := kv.Open(opt.KV(dst))
+	if err != nil {
+		return failf("backup-open-error", "opening the backup (while the source is open) with %s failed: %v", opt, err)
+	}
+	tmp := &Runner{Env: r.Env, Stats: r.Stats, DB: copyDB, Model: r.Model, Probe: r.Probe, Opt: opt}
+	f := tmp.guard("backup-dump", func() *Fail { return tmp.CheckDump(true, nil) })
+	if f != nil {
+		func() {
+			defer func() { _ = recover() }()
+			_ = copyDB.Close()
+		}()
+		f.Sig = "backup-" + f.Sig
+		f.Msg = "in the opened backup: " + f.Msg
+		return f
+	}
+	if err := copyDB.Close(); err != nil {
+		return failf("backup-close-error", "closing the backup: %v", err)
+	}
+	if r.IO != nil {
+		r.IO.Forget(dst)
+	}
+	_ = os.RemoveAll(dst)
+	return nil
+}
+
+// CloseOnly closes the database without reopening it.
+func (r *Runner) CloseOnly() (fail *Fail) {
+	defer func() {
+		if p := recover(); p != nil {
+			fail = failf("panic", "Close panicked: %v\n%s", p, trimStack(debug.Stack()))
+		}
+	}()
+	if r.closed {
+		return nil
+	}
+	err := r.DB.Close()
+	r.closed = true
+	if err != nil {
+		return failf("close-error", "Close() = %v", err)
+	}
+	return nil
+}
+
 // NonTrivialBasic is the C01 rule: at least 3 mutations and at least one key
 // written twice or deleted after being written.
 func (r *Runner) NonTrivialBasic() bool { return r.F.Muts >= 3 && r.F.Rewrites >= 1 }
@@ -1118,6 +1198,10 @@ func (r *Runner) AddLabels() {
 	lab(r.F.MidBatchFlush > 0, "batch-rotated-before-commit-returned")
 	lab(r.F.PostCommit > 0, "post-commit-call")
 	lab(r.F.EmptyBatch > 0, "empty-batch")
+	lab(r.F.Backups > 0, "backup")
+	lab(r.F.Backups > 1, "several-backups")
+	lab(r.F.BackupWithHint > 0, "backup-with-hint-file")
+	lab(r.F.WritesAfterBackup > 0, "write-after-backup")
 	for k, n := range r.F.IterLabels {
 		lab(n > 0, k)
 	}
